@@ -21,6 +21,7 @@ def obligations(tier):
                               unwindset=["%s:3" % f for f in tc.REC_FUNCS] + ["%s:2" % l for l in tc.REC_LOOPS] + ["_cbor_highest_bit.0:66"],
                               desc="heads declaring 2^32 .. 2^64-1 elements / bytes (8-byte count forms, at top level, tagged, nested, as a chunk) under an allocator that refuses requests above 4 KiB: "
                                    "the decoder fails cleanly; an under-allocated table written past its end is an object-bounds violation")
+    o += tc.large_obligations("load_safety_large", {"P_SAFETY": 1}, "load", ptrcheck=True, funcs=F, timeout=1200, select=lambda s: len(s["outcome"].nodes) <= 26, desc="large shapes with all memory-safety checks: load (+ a handful of truncations), describe, size, serialize, copy, release")
     return o
 
 
